@@ -63,8 +63,9 @@ func main() {
 		go func() {
 			time.Sleep(limit)
 			fmt.Printf("INCONCLUSIVE property=%s watchdog: check exceeded %v\n", *prop, limit)
-			buf := make([]byte, 1<<20)
+			buf := make([]byte, 1<<22)
 			n := runtime.Stack(buf, true)
+			os.WriteFile(fmt.Sprintf("/tmp/gclverify-hang-%s-%d.txt", *prop, os.Getpid()), buf[:n], 0644)
 			os.Stderr.Write(buf[:n])
 			os.RemoveAll(tmp)
 			os.Exit(3)
